@@ -98,6 +98,11 @@ func (dc *agentConnection) Read(b []byte) (int, error) {
 		dc.buff = dc.buff[n:]
 		dc.m.Unlock()
 
+		if n == 0 && len(b) != 0 {
+			// wake-up for data an earlier Read has already returned
+			return dc.Read(b)
+		}
+
 		return n, nil
 	}
 }
